@@ -618,7 +618,6 @@ theorem parseArg_lit (v : L) : parseArg [Tok.lit v] = some (.lit v) := by rw [pa
 theorem parseArg_root (r : String) (rest : List (Tok L)) :
     parseArg (.root r :: rest) = (parseSteps rest).map (Arg.t r) := by
   rw [parseArg]
-  intro v h; simp at h
 
 theorem parseItem_def (toks : List (Tok L)) : parseItem toks =
     match splitOn Tok.isColon toks with
@@ -652,6 +651,633 @@ theorem parseCall_def (toks : List (Tok L)) : parseCall toks =
   rw [parseCall]
   rw [List.attach_map_val (l := dropTrailingEmpty (splitOn Tok.isComma toks))
     (f := fun p => (parseArg (stripKw p).2).map (fun a => ((stripKw p).1, a)))]
+
+/-! ### facts about formatted pieces -/
+
+/-- the formatter of the repaired tree: all three switches on -/
+def F1 : FmtFacts := ⟨true, true, true⟩
+
+def Tok.isHead : Tok L → Bool
+  | .lit _ | .root _ | .name _ => true
+  | _ => false
+
+theorem fmtArg_head (F : FmtFacts) (a : Arg L) :
+    ∃ t rest, fmtArg F a = t :: rest ∧ t.isHead = true := by
+  cases a with
+  | lit v => exact ⟨.lit v, [], by rw [fmtArg], rfl⟩
+  | t root steps =>
+    rw [fmtArg]; unfold assembleT
+    split
+    · unfold assemblePath
+      split
+      · exact ⟨_, _, rfl, rfl⟩
+      · exact ⟨_, _, rfl, rfl⟩
+    · exact ⟨_, _, rfl, rfl⟩
+
+theorem stripKw_fmtArg (F : FmtFacts) (a : Arg L) : stripKw (fmtArg F a) = (none, fmtArg F a) := by
+  obtain ⟨t, rest, h, ht⟩ := fmtArg_head F a
+  rw [h]
+  cases t <;> simp_all [stripKw, Tok.isHead]
+
+theorem fmtArg_not_unit (F : FmtFacts) (a : Arg L) (rest : List (Tok L)) :
+    isUnitTok (fmtArg F a ++ rest) = false := by
+  obtain ⟨t, r, h, ht⟩ := fmtArg_head F a
+  rw [h]
+  cases t <;> simp_all [isUnitTok, Tok.isHead]
+
+theorem fmtArg_noComma (F : FmtFacts) (a : Arg L) : ∀ t ∈ fmtArg F a, t.isComma = false :=
+  fun t ht => plain_not_comma (fmtArg_plain F a t ht)
+
+theorem fmtArg_noColon (F : FmtFacts) (a : Arg L) : ∀ t ∈ fmtArg F a, t.isColon = false :=
+  fun t ht => plain_not_colon (fmtArg_plain F a t ht)
+
+def fmtOpt (F : FmtFacts) : Option (Arg L) → List (Tok L)
+  | none => []
+  | some x => fmtArg F x
+
+theorem fmtItem_slice (F : FmtFacts) (a b c : Option (Arg L)) :
+    fmtItem F (.slice a b c) = fmtOpt F a ++ [Tok.colon] ++ fmtOpt F b ++
+      (match c with | none => [] | some x => Tok.colon :: fmtArg F x) := by
+  cases a <;> cases b <;> cases c <;> simp [fmtItem, fmtOpt]
+
+theorem fmtOpt_noColon (F : FmtFacts) (a : Option (Arg L)) : ∀ t ∈ fmtOpt F a, t.isColon = false := by
+  cases a with
+  | none => intro t ht; simp [fmtOpt] at ht
+  | some x => exact fmtArg_noColon F x
+
+theorem fmtOpt_noComma (F : FmtFacts) (a : Option (Arg L)) : ∀ t ∈ fmtOpt F a, t.isComma = false := by
+  cases a with
+  | none => intro t ht; simp [fmtOpt] at ht
+  | some x => exact fmtArg_noComma F x
+
+theorem fmtItem_noComma (F : FmtFacts) (i : Item L) : ∀ t ∈ fmtItem F i, t.isComma = false := by
+  cases i with
+  | one a => rw [fmtItem]; exact fmtArg_noComma F a
+  | slice a b c =>
+    rw [fmtItem_slice]
+    intro t ht
+    simp only [List.mem_append, List.mem_singleton] at ht
+    rcases ht with ((ht | rfl) | ht) | ht
+    · exact fmtOpt_noComma F a t ht
+    · rfl
+    · exact fmtOpt_noComma F b t ht
+    · cases c with
+      | none => simp at ht
+      | some x =>
+        simp only [List.mem_cons] at ht
+        rcases ht with rfl | ht
+        · rfl
+        · exact fmtArg_noComma F x t ht
+
+theorem fmtItem_ne_nil (F : FmtFacts) (i : Item L) : fmtItem F i ≠ [] := by
+  cases i with
+  | one a => rw [fmtItem]; exact fmtArg_ne_nil F a
+  | slice a b c => rw [fmtItem_slice]; simp
+
+theorem fmtItem_not_unit (F : FmtFacts) (i : Item L) (rest : List (Tok L)) :
+    isUnitTok (fmtItem F i ++ rest) = false := by
+  cases i with
+  | one a => rw [fmtItem]; exact fmtArg_not_unit F a rest
+  | slice a b c =>
+    rw [fmtItem_slice]
+    cases a with
+    | none => simp [fmtOpt, isUnitTok]
+    | some x =>
+      simp only [fmtOpt, List.append_assoc]
+      exact fmtArg_not_unit F x _
+
+theorem assembleT_noseg (F : FmtFacts) (root : String) (steps : List (Step L))
+    (h : ∀ s ∈ steps, s.isSeg = false) :
+    assembleT root (steps.map (fun s => (s, fmtStep F s))) =
+      .root root :: steps.flatMap (fmtStep F) := by
+  unfold assembleT
+  have : (steps.map (fun s => (s, fmtStep F s))).any (fun x => x.1.isSeg) = false := by
+    simp only [List.any_map, List.any_eq_false]
+    intro s hs; simp [h s hs]
+  simp only [this, Bool.false_eq_true, if_false, List.flatMap_map]
+
+theorem parseSteps_flatMap (F : FmtFacts) (steps : List (Step L))
+    (h : ∀ s ∈ steps, ∀ rest, parseSteps (fmtStep F s ++ rest) =
+      (parseSteps rest).map (normStep s :: ·)) :
+    parseSteps (steps.flatMap (fmtStep F)) = some (steps.map normStep) := by
+  induction steps with
+  | nil => simp [parseSteps_nil]
+  | cons s r ih =>
+    simp only [List.flatMap_cons, List.map_cons]
+    rw [h s (by simp), ih (fun x hx => h x (by simp [hx]))]
+    rfl
+
+theorem all_id_map {α} (f : α → Bool) (xs : List α) :
+    (xs.map f).all id = true ↔ ∀ x ∈ xs, f x = true := by
+  simp [List.all_eq_true]
+
+
+/-! ### indexes with a tuple, and calls -/
+
+theorem joinSep_cons_cons (sep : Tok L) (p q : List (Tok L)) (r : List (List (Tok L))) :
+    joinSep sep (p :: q :: r) = p ++ sep :: joinSep sep (q :: r) := rfl
+
+theorem getLast?_map_ne_nil {α} (f : α → List (Tok L)) (xs : List α) (hf : ∀ x ∈ xs, f x ≠ []) :
+    ∀ y, (xs.map f).getLast? = some y → y ≠ [] := by
+  intro y hy
+  have := List.mem_of_getLast? hy
+  simp only [List.mem_map] at this
+  obtain ⟨x, hx, rfl⟩ := this
+  exact hf x hx
+
+/-- the token list of a tuple index -/
+def itemsToks (is : List (Item L)) : List (Tok L) :=
+  joinSep .comma (is.map (fun i => fmtItem F1 i)) ++ (if is.length == 1 then [Tok.comma] else [])
+
+theorem parseIndex_items (is : List (Item L)) (hne : is ≠ [])
+    (hi : ∀ i ∈ is, parseItem (fmtItem F1 i) = some (normItem i)) :
+    parseIndex (itemsToks is) = some (.items (is.map normItem)) := by
+  rw [parseIndex_def]
+  match is, hne, hi with
+  | [i], _, hi =>
+    simp only [itemsToks, List.map_cons, List.map_nil, joinSep, List.length_singleton, beq_self_eq_true,
+      if_true]
+    rw [fmtItem_not_unit F1 i [Tok.comma]]
+    simp only [Bool.false_eq_true, if_false]
+    rw [splitOn_append_sep _ _ _ _ (fmtItem_noComma F1 i) rfl]
+    simp only [splitOn, dropTrailingEmpty, List.getLast?, List.getLast, List.dropLast, List.map_cons,
+      List.map_nil, hi i (by simp), allSome, Option.map_some]
+  | i :: j :: r, _, hi =>
+    have hlen : ((i :: j :: r).length == 1) = false := by simp
+    simp only [itemsToks, hlen, Bool.false_eq_true, if_false, List.append_nil]
+    have hu : isUnitTok (joinSep Tok.comma ((i :: j :: r).map (fun i => fmtItem F1 i))) = false := by
+      simp only [List.map_cons, joinSep_cons_cons]
+      exact fmtItem_not_unit F1 i _
+    rw [hu]
+    simp only [Bool.false_eq_true, if_false]
+    rw [splitOn_joinSep _ _ rfl _ (by simp) (by
+      intro x hx; simp only [List.mem_map] at hx; obtain ⟨y, _, rfl⟩ := hx
+      exact fmtItem_noComma F1 y)]
+    rw [dropTrailingEmpty_of_last_ne _ (getLast?_map_ne_nil _ _ (fun x _ => fmtItem_ne_nil F1 x))]
+    have h := allSome_map_some (fun x => parseItem (fmtItem F1 x)) normItem (i :: j :: r)
+      (fun x hx => hi x hx)
+    simp only [List.map_cons, List.map_map, Function.comp_def] at h ⊢
+    rw [h]; rfl
+
+theorem sortKw_map_snd {α β : Type} (f : α → β) (l : List (String × α)) :
+    sortKw (l.map (fun p => (p.1, f p.2))) = (sortKw l).map (fun p => (p.1, f p.2)) := by
+  unfold sortKw
+  exact (List.map_mergeSort (r := fun a b => decide (a.1 ≤ b.1))
+    (s := fun a b => decide (a.1 ≤ b.1)) (f := fun (p : String × α) => (p.1, f p.2)) (l := l)
+    (fun a _ b _ => rfl)).symm
+
+theorem sortKw_nodup {α} (l : List (String × α)) (h : (l.map (fun p => p.1)).Nodup) :
+    ((sortKw l).map (fun p => p.1)).Nodup :=
+  ((List.mergeSort_perm l _).map _).nodup_iff.mpr h
+
+theorem takeWhile_none_append (pos : List (Arg L)) (kws : List (String × Arg L)) :
+    ((pos.map (fun a => ((none : Option String), a))) ++ kws.map (fun p => (some p.1, p.2))).takeWhile
+      (fun p => p.1.isNone) = pos.map (fun a => (none, a)) := by
+  induction pos with
+  | nil => cases kws <;> simp
+  | cons a r ih => simp [ih]
+
+theorem dropWhile_none_append (pos : List (Arg L)) (kws : List (String × Arg L)) :
+    ((pos.map (fun a => ((none : Option String), a))) ++ kws.map (fun p => (some p.1, p.2))).dropWhile
+      (fun p => p.1.isNone) = kws.map (fun p => (some p.1, p.2)) := by
+  induction pos with
+  | nil => cases kws <;> simp
+  | cons a r ih => simp [ih]
+
+theorem splitCallArgs_mk (pos : List (Arg L)) (kws : List (String × Arg L))
+    (hnd : (kws.map (fun p => p.1)).Nodup) :
+    splitCallArgs ((pos.map (fun a => ((none : Option String), a))) ++
+      kws.map (fun p => (some p.1, p.2))) = some (pos, kws) := by
+  unfold splitCallArgs
+  simp only [takeWhile_none_append, dropWhile_none_append]
+  have hall : (kws.map (fun p => ((some p.1 : Option String), p.2))).all (fun p => p.1.isSome) = true := by
+    simp [List.all_eq_true]
+  have hfm : ∀ (l : List (String × Arg L)),
+      (l.map (fun p => ((some p.1 : Option String), p.2))).filterMap
+        (fun p => p.1.map (fun k => (k, p.2))) = l := by
+    intro l
+    induction l with
+    | nil => rfl
+    | cons k r ih => simp only [List.map_cons, List.filterMap_cons, Option.map_some, ih]
+  simp only [hall, if_true, hfm, hnd, List.map_map]
+  simp [Function.comp_def]
+
+/-- the token list inside the parentheses of a call -/
+def callToks (args : List (Arg L)) (kwargs : List (String × Arg L)) : List (Tok L) :=
+  joinSep .comma ((args.map (fun a => fmtArg F1 a)) ++
+    (sortKw (kwargs.map (fun p => (p.1, fmtArg F1 p.2)))).map (fun p => Tok.kw p.1 :: p.2))
+
+theorem joinSep_ne_nil (sep : Tok L) (pieces : List (List (Tok L))) (hne : pieces ≠ [])
+    (hp : ∀ x ∈ pieces, x ≠ []) : joinSep sep pieces ≠ [] := by
+  match pieces, hne, hp with
+  | [p], _, hp => simpa [joinSep] using hp p (by simp)
+  | p :: q :: r, _, hp =>
+    rw [joinSep_cons_cons]
+    have := hp p (by simp)
+    cases p with
+    | nil => exact absurd rfl this
+    | cons t ts => simp
+
+theorem parseCall_fmt (args : List (Arg L)) (kwargs : List (String × Arg L))
+    (ha : ∀ a ∈ args, parseArg (fmtArg F1 a) = some (normArg a))
+    (hk : ∀ p ∈ kwargs, parseArg (fmtArg F1 p.2) = some (normArg p.2))
+    (hnd : (kwargs.map (fun p => p.1)).Nodup) :
+    parseCall (callToks args kwargs) =
+      some (.call (args.map normArg) (sortKw (kwargs.map (fun p => (p.1, normArg p.2))))) := by
+  rw [parseCall_def]
+  unfold callToks
+  rw [sortKw_map_snd, sortKw_map_snd, List.map_map]
+  generalize hpieces : (args.map (fun a => fmtArg F1 a)) ++
+    (sortKw kwargs).map ((fun p => Tok.kw p.1 :: p.2) ∘ fun p => (p.1, fmtArg F1 p.2)) = pieces
+  by_cases hemp : args = [] ∧ kwargs = []
+  · obtain ⟨rfl, rfl⟩ := hemp
+    simp only [List.map_nil, sortKw, List.mergeSort_nil, List.append_nil] at hpieces ⊢
+    subst hpieces
+    simp [joinSep]
+  · have hpne : pieces ≠ [] := by
+      subst hpieces
+      intro h
+      simp only [List.append_eq_nil_iff, List.map_eq_nil_iff] at h
+      apply hemp
+      refine ⟨h.1, ?_⟩
+      have hperm := List.mergeSort_perm kwargs (fun a b => decide (a.1 ≤ b.1))
+      have : sortKw kwargs = [] := h.2
+      unfold sortKw at this
+      rw [this] at hperm
+      exact List.Perm.nil_eq hperm |>.symm
+    have hpieces_ne : ∀ x ∈ pieces, x ≠ [] := by
+      subst hpieces
+      intro x hx
+      simp only [List.mem_append, List.mem_map, Function.comp] at hx
+      rcases hx with ⟨a, _, rfl⟩ | ⟨p, _, rfl⟩
+      · exact fmtArg_ne_nil F1 a
+      · simp
+    have hpieces_nc : ∀ x ∈ pieces, ∀ t ∈ x, Tok.isComma t = false := by
+      subst hpieces
+      intro x hx
+      simp only [List.mem_append, List.mem_map, Function.comp] at hx
+      rcases hx with ⟨a, _, rfl⟩ | ⟨p, _, rfl⟩
+      · exact fmtArg_noComma F1 a
+      · intro t ht
+        simp only [List.mem_cons] at ht
+        rcases ht with rfl | ht
+        · rfl
+        · exact fmtArg_noComma F1 p.2 t ht
+    have hjne : (joinSep Tok.comma pieces).isEmpty = false := by
+      simp only [List.isEmpty_eq_false_iff]
+      exact joinSep_ne_nil _ pieces hpne hpieces_ne
+    simp only [hjne, Bool.false_eq_true, if_false]
+    rw [splitOn_joinSep _ _ rfl pieces hpne hpieces_nc,
+      dropTrailingEmpty_of_last_ne pieces (fun y hy => hpieces_ne y (List.mem_of_getLast? hy))]
+    subst hpieces
+    have hmem : ∀ p ∈ sortKw kwargs, p ∈ kwargs := fun p hp => by
+      unfold sortKw at hp; exact List.mem_mergeSort.mp hp
+    have hres : allSome (List.map (fun p => Option.map (fun a => ((stripKw p).fst, a))
+        (parseArg (stripKw p).snd))
+        (List.map (fun a => fmtArg F1 a) args ++
+          List.map ((fun p => Tok.kw p.fst :: p.snd) ∘ fun p => (p.fst, fmtArg F1 p.snd))
+            (sortKw kwargs))) =
+        some ((args.map normArg).map (fun a => ((none : Option String), a)) ++
+          ((sortKw kwargs).map (fun p => (p.1, normArg p.2))).map (fun p => (some p.1, p.2))) := by
+      rw [List.map_append, List.map_map, List.map_map]
+      have h1 : List.map ((fun p => Option.map (fun a => ((stripKw p).fst, a))
+          (parseArg (stripKw p).snd)) ∘ fun a => fmtArg F1 a) args =
+          args.map (fun a => some ((none : Option String), normArg a)) := by
+        apply List.map_congr_left
+        intro a haa
+        simp only [Function.comp, stripKw_fmtArg, ha a haa, Option.map_some]
+      have h2 : List.map ((fun p => Option.map (fun a => ((stripKw p).fst, a))
+          (parseArg (stripKw p).snd)) ∘
+            ((fun p => Tok.kw p.fst :: p.snd) ∘ fun p => (p.fst, fmtArg F1 p.snd))) (sortKw kwargs) =
+          (sortKw kwargs).map (fun p => some ((some p.1 : Option String), normArg p.2)) := by
+        apply List.map_congr_left
+        intro p hp
+        simp only [Function.comp, stripKw, hk p (hmem p hp), Option.map_some]
+      rw [h1, h2]
+      have : (args.map (fun a => some ((none : Option String), normArg a)) ++
+          (sortKw kwargs).map (fun p => some ((some p.1 : Option String), normArg p.2))) =
+          ((args.map normArg).map (fun a => ((none : Option String), a)) ++
+            ((sortKw kwargs).map (fun p => (p.1, normArg p.2))).map
+              (fun p => ((some p.1 : Option String), p.2))).map some := by
+        simp [List.map_map, Function.comp_def]
+      rw [this]
+      exact (allSome_map_some some id _ (fun _ _ => rfl)).trans (by simp)
+    rw [hres]
+    simp only [callOf]
+    rw [splitCallArgs_mk _ _ (by
+      have := sortKw_nodup kwargs hnd
+      simpa [List.map_map, Function.comp_def] using this)]
+    rfl
+
+theorem consOpt_some {α} (x : α) (r : Option (List α)) : consOpt (some x) r = r.map (x :: ·) := by
+  cases r <;> rfl
+
+theorem validArg_t (root : String) (steps : List (Step L)) :
+    validArg (.t root steps) = true ↔ ∀ s ∈ steps, s.isSeg = false ∧ validStep s = true := by
+  rw [validArg, all_id_map]
+  simp
+
+theorem getLast?_mem {α} {l : List α} {x : α} (h : l.getLast? = some x) : x ∈ l :=
+  List.mem_of_getLast? h
+
+theorem normItem_slice (a b c : Option (Arg L)) :
+    normItem (.slice a b c) =
+      .slice (a.map normArg) (b.map normArg) (c.map normArg) := by
+  cases a <;> cases b <;> cases c <;> simp [normItem]
+
+/-- the optional parts of a slice -/
+theorem parseOpt_fmt (a : Option (Arg L))
+    (ih : ∀ x, a = some x → parseArg (fmtArg F1 x) = some (normArg x)) :
+    (if (fmtOpt F1 a).isEmpty then some none else (parseArg (fmtOpt F1 a)).map some) =
+      some (a.map normArg) := by
+  cases a with
+  | none => simp [fmtOpt]
+  | some x =>
+    have hne : (fmtArg F1 x).isEmpty = false := by
+      simp only [List.isEmpty_eq_false_iff]; exact fmtArg_ne_nil F1 x
+    simp only [fmtOpt, hne, Bool.false_eq_true, if_false, ih x rfl, Option.map_some]
+
+mutual
+  theorem parseArg_fmt : ∀ (a : Arg L), validArg a = true →
+      parseArg (fmtArg F1 a) = some (normArg a)
+    | .lit v, _ => by rw [fmtArg, parseArg_lit, normArg]
+    | .t root steps, hv => by
+      rw [validArg_t] at hv
+      rw [fmtArg, assembleT_noseg F1 root steps (fun s hs => (hv s hs).1), parseArg_root,
+        parseSteps_flatMap F1 steps (fun s hs rest =>
+          parseStep_fmt s (hv s hs).2 (hv s hs).1 rest), normArg]
+      rfl
+  termination_by a => sizeOf a
+  decreasing_by all_goals c18_dec
+
+  theorem parseItem_fmt : ∀ (i : Item L), validItem i = true →
+      parseItem (fmtItem F1 i) = some (normItem i)
+    | .one a, hv => by
+      unfold validItem at hv
+      rw [fmtItem, parseItem_def, splitOn_noSep _ _ (fmtArg_noColon F1 a)]
+      simp only [parseArg_fmt a hv, Option.map_some, normItem]
+    | .slice a b none, hv => by
+      unfold validItem at hv
+      simp only [Bool.and_eq_true] at hv
+      have ha := parseOpt_fmt a (fun x hx => parseArg_fmt x (by subst hx; exact hv.1.1))
+      have hb := parseOpt_fmt b (fun x hx => parseArg_fmt x (by subst hx; exact hv.1.2))
+      rw [fmtItem_slice, parseItem_def, normItem_slice]
+      simp only [List.append_nil, List.append_assoc, List.singleton_append]
+      rw [splitOn_append_sep _ _ _ _ (fmtOpt_noColon F1 a) rfl,
+        splitOn_noSep _ _ (fmtOpt_noColon F1 b)]
+      simp only [ha, hb, slice3, Option.map_none]
+    | .slice a b (some x), hv => by
+      unfold validItem at hv
+      simp only [Bool.and_eq_true] at hv
+      have ha := parseOpt_fmt a (fun y hy => parseArg_fmt y (by subst hy; exact hv.1.1))
+      have hb := parseOpt_fmt b (fun y hy => parseArg_fmt y (by subst hy; exact hv.1.2))
+      have hne : (fmtArg F1 x).isEmpty = false := by
+        simp only [List.isEmpty_eq_false_iff]; exact fmtArg_ne_nil F1 x
+      have hc := parseArg_fmt x hv.2
+      rw [fmtItem_slice, parseItem_def, normItem_slice]
+      simp only [List.append_assoc, List.singleton_append, List.cons_append, List.nil_append]
+      rw [splitOn_append_sep _ _ _ _ (fmtOpt_noColon F1 a) rfl,
+        splitOn_append_sep _ _ _ _ (fmtOpt_noColon F1 b) rfl,
+        splitOn_noSep _ _ (fmtArg_noColon F1 x)]
+      simp only [ha, hb, hc, hne, slice3, Bool.false_eq_true, if_false, Option.map_some]
+  termination_by i => sizeOf i
+  decreasing_by
+    all_goals simp_wf
+    all_goals (try subst_vars)
+    all_goals (first | omega | (simp <;> omega))
+
+  theorem parseStep_fmt : ∀ (s : Step L), validStep s = true → s.isSeg = false →
+      ∀ (rest : List (Tok L)),
+      parseSteps (fmtStep F1 s ++ rest) = (parseSteps rest).map (normStep s :: ·)
+    | .seg v, _, hs, _ => by simp [Step.isSeg] at hs
+    | .star, _, _, rest => by rw [fmtStep, normStep]; exact parseSteps_star rest
+    | .starstar, _, _, rest => by rw [fmtStep, normStep]; exact parseSteps_starstar rest
+    | .attr n, _, _, rest => by
+      rw [fmtStep, normStep]
+      by_cases hd : isDunder n = true
+      · simp only [F1, hd, Bool.and_self, if_true, List.cons_append, List.nil_append]
+        rw [parseSteps_dunder, ← (isDunder_iff n).mp hd]
+      · have hd' : isDunder n = false := by simpa using hd
+        simp only [hd', Bool.and_false, Bool.false_eq_true, if_false, List.cons_append,
+          List.nil_append]
+        exact parseSteps_dot n rest hd'
+    | .item i, hv, _, rest => by
+      unfold validStep at hv
+      rw [fmtStep, normStep]
+      simp only [List.cons_append, List.nil_append]
+      rw [parseSteps_br, parseIndex_def]
+      have hu := fmtItem_not_unit F1 i []
+      simp only [List.append_nil] at hu
+      simp only [hu, Bool.false_eq_true, if_false]
+      rw [splitOn_noSep _ _ (fmtItem_noComma F1 i)]
+      simp only [parseItem_fmt i hv, Option.map_some, consOpt_some]
+    | .items is, hv, _, rest => by
+      unfold validStep at hv
+      rw [all_id_map] at hv
+      have hi : ∀ i ∈ is, parseItem (fmtItem F1 i) = some (normItem i) :=
+        fun i hi => parseItem_fmt i (hv i hi)
+      rw [fmtStep, normStep]
+      by_cases hemp : is = []
+      · subst hemp
+        simp only [F1, List.isEmpty_nil, Bool.and_self, if_true, List.cons_append, List.nil_append,
+          List.map_nil]
+        rw [parseSteps_br, parseIndex_def]
+        simp only [isUnitTok, if_true, consOpt_some]
+      · have hne : (is.isEmpty && F1.tupleEmptyParen) = false := by
+          cases is with
+          | nil => exact absurd rfl hemp
+          | cons _ _ => rfl
+        simp only [hne, Bool.false_eq_true, if_false, List.cons_append, List.nil_append]
+        rw [parseSteps_br]
+        have := parseIndex_items is hemp hi
+        simp only [itemsToks] at this
+        have hsc : F1.singletonComma = true := rfl
+        simp only [hsc, Bool.and_true]
+        rw [this, consOpt_some]
+    | .call args kwargs, hv, _, rest => by
+      unfold validStep at hv
+      simp only [Bool.and_eq_true, all_id_map, decide_eq_true_eq] at hv
+      have ha : ∀ a ∈ args, parseArg (fmtArg F1 a) = some (normArg a) :=
+        fun a haa => parseArg_fmt a (hv.1.1 a haa)
+      have hk : ∀ p ∈ kwargs, parseArg (fmtArg F1 p.2) = some (normArg p.2) :=
+        fun p hp => parseArg_fmt p.2 (hv.1.2 p hp)
+      rw [fmtStep, normStep]
+      simp only [List.cons_append, List.nil_append]
+      rw [parseSteps_par]
+      have := parseCall_fmt args kwargs ha hk hv.2
+      simp only [callToks] at this
+      rw [this, consOpt_some]
+  termination_by s => sizeOf s
+  decreasing_by all_goals c18_dec
+end
+
+/-! ### whole objects -/
+
+theorem validT_iff (steps : List (Step L)) :
+    validT steps = true ↔ ∀ s ∈ steps, s.isSeg = false ∧ validStep s = true := by
+  simp [validT, List.all_eq_true]
+
+theorem parseSteps_fmt (steps : List (Step L)) (hv : validT steps = true) :
+    parseSteps (steps.flatMap (fmtStep F1)) = some (normSteps steps) := by
+  rw [validT_iff] at hv
+  exact parseSteps_flatMap F1 steps (fun s hs rest => parseStep_fmt s (hv s hs).2 (hv s hs).1 rest)
+
+/-- `eval(repr(t))` of a T expression gives back its root and (normalised) steps -/
+theorem parseObj_fmtT (root : String) (steps : List (Step L)) (hv : validT steps = true) :
+    parseObj (fmtT F1 root steps) = some (.tobj root (normSteps steps)) := by
+  have hns : ∀ s ∈ steps, s.isSeg = false := fun s hs => ((validT_iff steps).mp hv s hs).1
+  unfold fmtT fmtSteps
+  rw [assembleT_noseg F1 root steps hns]
+  rw [parseObj, parseSteps_fmt steps hv]
+  rfl
+
+/-! ### Paths: grouping into parts and `Path.__init__` -/
+
+theorem groupSteps_map {α β} (p : α → Bool) (f : α → β) (q : β → Bool) (hq : ∀ a, q (f a) = p a) :
+    ∀ (xs : List α), groupSteps q (xs.map f) =
+      (groupSteps p xs).map (fun g => match g with
+        | .inl l => .inl (l.map f)
+        | .inr x => .inr (f x)) := by
+  intro xs
+  induction xs with
+  | nil => rfl
+  | cons x r ih =>
+    simp only [List.map_cons, groupSteps, hq]
+    split
+    · simp [ih]
+    · rw [ih]
+      cases groupSteps p r with
+      | nil => rfl
+      | cons g rest => cases g <;> rfl
+
+/-- the steps a group stands for -/
+def unGroup {α} : List α ⊕ α → List α
+  | .inl g => g
+  | .inr x => [x]
+
+theorem groupSteps_flatten {α} (p : α → Bool) :
+    ∀ (xs : List α), (groupSteps p xs).flatMap unGroup = xs := by
+  intro xs
+  induction xs with
+  | nil => rfl
+  | cons x r ih =>
+    simp only [groupSteps]
+    split
+    · simp [unGroup, ih]
+    · revert ih
+      cases groupSteps p r with
+      | nil => intro ih; simp [unGroup] at ih ⊢; exact ih
+      | cons g rest =>
+        cases g with
+        | inl l => intro ih; simp [unGroup] at ih ⊢; exact ih
+        | inr y => intro ih; simp [unGroup] at ih ⊢; exact ih
+
+theorem groupSteps_spec {α} (p : α → Bool) :
+    ∀ (xs : List α), ∀ g ∈ groupSteps p xs,
+      match g with
+      | .inl l => l ≠ [] ∧ ∀ x ∈ l, p x = false
+      | .inr x => p x = true := by
+  intro xs
+  induction xs with
+  | nil => intro g hg; simp [groupSteps] at hg
+  | cons x r ih =>
+    intro g hg
+    simp only [groupSteps] at hg
+    split at hg
+    · rename_i hp
+      simp only [List.mem_cons] at hg
+      rcases hg with rfl | hg
+      · exact hp
+      · exact ih g hg
+    · rename_i hp
+      have hp' : p x = false := by simpa using hp
+      split at hg
+      · rename_i l rest heq
+        simp only [List.mem_cons] at hg
+        rcases hg with rfl | hg
+        · have := ih (.inl l) (by rw [heq]; simp)
+          simp only at this
+          refine ⟨by simp, ?_⟩
+          intro y hy
+          simp only [List.mem_cons] at hy
+          rcases hy with rfl | hy
+          · exact hp'
+          · exact this.2 y hy
+        · exact ih g (by rw [heq]; simp [hg])
+      · simp only [List.mem_cons] at hg
+        rcases hg with rfl | hg
+        · exact ⟨by simp, by intro y hy; simp at hy; subst hy; exact hp'⟩
+        · exact ih g hg
+
+theorem tChild_T (steps : List (Step L)) (st : Step L) : tChild "T" steps st = some (steps ++ [st]) := by
+  cases st <;> simp [tChild]
+
+theorem foldlM_tChild_T (s : List (Step L)) :
+    ∀ (acc : List (Step L)), s.foldlM (fun steps st => tChild "T" steps st) acc = some (acc ++ s) := by
+  induction s with
+  | nil => intro acc; simp
+  | cons st r ih =>
+    intro acc
+    rw [List.foldlM_cons, tChild_T]
+    simp only [Option.bind_eq_bind, Option.bind_some]
+    rw [ih]; simp
+
+/-- the steps a parsed part contributes -/
+def partSteps : Part L → List (Step L)
+  | .plain v => [.seg v]
+  | .texpr _ s => s
+  | .path _ s => s
+
+def partOk : Part L → Bool
+  | .plain _ => true
+  | .texpr r _ => r == "T"
+  | .path r _ => r == "T"
+
+theorem pathStep_T (acc : List (Step L)) (part : Part L) (hp : partOk part = true) :
+    pathStep ("T", acc) part = some ("T", acc ++ partSteps part) := by
+  cases part with
+  | plain v => simp [pathStep, tChild_T, partSteps]
+  | texpr r s =>
+    simp only [partOk, beq_iff_eq] at hp; subst hp
+    simp [pathStep, foldlM_tChild_T, partSteps]
+  | path r s =>
+    simp only [partOk, beq_iff_eq] at hp; subst hp
+    simp [pathStep, foldlM_tChild_T, partSteps]
+
+theorem pathInit_fold (parts : List (Part L)) (hp : ∀ x ∈ parts, partOk x = true) :
+    ∀ (acc : List (Step L)),
+    parts.foldlM pathStep ("T", acc) = some ("T", acc ++ parts.flatMap partSteps) := by
+  induction parts with
+  | nil => intro acc; simp
+  | cons x r ih =>
+    intro acc
+    rw [List.foldlM_cons, pathStep_T acc x (hp x (by simp))]
+    simp only [Option.bind_eq_bind, Option.bind_some]
+    rw [ih (fun y hy => hp y (by simp [hy]))]
+    simp
+
+/-- `Path(*parts)` for parts rooted at T: the steps of the parts, in order -/
+theorem pathInit_ok (parts : List (Part L)) (hp : ∀ x ∈ parts, partOk x = true) :
+    pathInit parts = some ("T", parts.flatMap partSteps) := by
+  cases parts with
+  | nil => rfl
+  | cons first others =>
+    cases first with
+    | texpr r s =>
+      have := hp (.texpr r s) (by simp)
+      simp only [partOk, beq_iff_eq] at this
+      subst this
+      simp only [pathInit]
+      rw [pathInit_fold others (fun y hy => hp y (by simp [hy])) s]
+      simp [partSteps]
+    | plain v =>
+      simp only [pathInit]
+      have := pathInit_fold (.plain v :: others) hp []
+      simpa using this
+    | path r s =>
+      simp only [pathInit]
+      have := pathInit_fold (.path r s :: others) hp []
+      simpa using this
 
 end roundtrip
 
